@@ -13,6 +13,7 @@ mutator method on, an expression whose level is DIRECT.
 from __future__ import annotations
 
 import ast
+import re
 import dataclasses as dc
 
 from mlmverif.core import (ClassInfo, FuncInfo, Repo, attr_chain, is_self_attr,
@@ -304,8 +305,12 @@ class Effects:
           hit(n, t, 'augmented attribute store')
         elif isinstance(t, ast.Subscript) and self.level(t.value, env) == DIRECT:
           hit(n, t, 'augmented item store')
-        # `name op= x` on a local alias is not reported: without types the
-        # engine cannot tell an in-place list/array update from an int rebind
+        elif isinstance(t, ast.Name) and self.level(t, env) == DIRECT and not self._immutable_alias(fi, t.id):
+          # `name op= x` on a local alias of an owned object mutates it in
+          # place when it is a list/array; locals that provably hold an
+          # int/float/bool/str (annotation of the aliased field or property)
+          # merely rebind and are not reported
+          hit(n, t, 'augmented store through a local alias')
       elif isinstance(n, ast.Delete):
         for t in n.targets:
           if isinstance(t, (ast.Attribute, ast.Subscript)) and self.level(
@@ -393,6 +398,43 @@ class Effects:
         for t in tgt.elts:
           self._site_targets(t.value if isinstance(t, ast.Starred) else t, None, sub,
                              node, loops, env, out)
+
+  _IMMUTABLE_ANN = re.compile(r'^(int|float|bool|str|bytes|complex)(\s*\|\s*None)?$')
+
+  def _immutable_alias(self, fi: FuncInfo, name: str) -> bool:
+    """Does local `name` provably hold an immutable scalar (by annotation)?"""
+    vals = [x.value for x in walk_no_nested(fi.node) if isinstance(x, ast.Assign)
+            and any(isinstance(t, ast.Name) and t.id == name for t in x.targets)]
+    if not vals:
+      return False
+    for v in vals:
+      if isinstance(v, ast.Constant) and isinstance(v.value, (int, float, bool, str)):
+        continue
+      if isinstance(v, ast.Call) and unparse(v.func) in ('len', 'int', 'float', 'bool', 'str'):
+        continue
+      if isinstance(v, ast.Attribute):
+        classes = []
+        if fi.cls is not None:
+          classes.append(fi.cls)
+        if isinstance(v.value, ast.Name):
+          for a in fi.node.args.posonlyargs + fi.node.args.args + fi.node.args.kwonlyargs:
+            if a.arg == v.value.id and a.annotation is not None:
+              k = self.repo.resolve_class(fi.module, unparse(a.annotation).strip('\'"'))
+              if k is not None:
+                classes.append(k)
+        ann = None
+        for c in classes:
+          for cc in self.repo.mro(c):
+            for f in cc.fields:
+              if f.name == v.attr:
+                ann = ann or f.annotation
+            m = cc.methods.get(v.attr)
+            if m is not None and m.is_property and m.node.returns is not None:
+              ann = ann or unparse(m.node.returns)
+        if ann is not None and self._IMMUTABLE_ANN.match(ann.strip()):
+          continue
+      return False
+    return True
 
   def resolve(self, call: ast.Call, fi: FuncInfo) -> FuncInfo | None:
     f = call.func
